@@ -199,7 +199,8 @@ package core
 //@ func (*Parser) enterNested
 //@   flags inline
 //@ func (*Parser) ParseObject results (obj, err)
-//@   property C02
+//@   property C02, C06
+//@   callsite strconv.ParseFloat(s, bits) requires reals_at_double_precision: bits == 64
 //@   requires cpinv(p)
 //@   callsite parseArray() requires nesting_is_bounded: 1 <= p.depth && p.depth <= maxNestingDepth
 //@   callsite parseDict() requires nesting_is_bounded: 1 <= p.depth && p.depth <= maxNestingDepth
@@ -215,6 +216,8 @@ package core
 // never swallows the integer that follows)
 //@ func (*Parser) parseNumber results (obj, err)
 //@   property C02, C06
+//@   callsite strconv.ParseFloat(s, bits) requires reals_at_double_precision: bits == 64
+//@   callsite strconv.ParseInt(s, base, bits) requires integers_base_10_64_bit: base == 10 && bits == 64
 //@   requires cpinv(p) && tokW(p.currentToken) == 1
 //@   decreases pM(p), 0
 //@   ensures cpinv(p) && pM(p) <= old(pM(p))
